@@ -315,7 +315,7 @@ func runC08Cut(rec *vk.Rec, env *c08Env, si int, sess []c08Pkt, all []byte, off,
 	}
 	cl, sv := fakenet.Pair()
 	env.b.Svc.VerifAttach(sv)
-	v := &Client{Name: "victim", C: cl, Wait: 30 * time.Second}
+	v := &Client{Name: "victim", C: cl, Wait: 120 * time.Second}
 	v.Send(all[:off])
 	definite := true // whether every complete packet is certainly processed before the end
 	switch ending {
@@ -333,7 +333,7 @@ func runC08Cut(rec *vk.Rec, env *c08Env, si int, sess []c08Pkt, all []byte, off,
 	}
 	select {
 	case <-sv.Closed():
-	case <-time.After(30 * time.Second):
+	case <-time.After(120 * time.Second):
 		rec.Inconclusive(fmt.Sprintf("session %d off %d %s: broker did not close the connection within the watchdog", si, off, ending))
 		cl.Close()
 		return false
